@@ -12,7 +12,7 @@ Line-protocol handlers for C10 (driver `gm_c10`).
       the model runs with `enoughFuel` (2·events+1)
   unescape <hex>          -> some <hex> | none
   parsenum <32|64> <hex>  -> some <n> | none
-  isjacoco <hex>          -> 1 | 0
+  isjacoco <hex>          -> 1 | 0   (marker within the first min(256, len) bytes)
 -/
 import GrcovModel.Jacoco
 import GrcovModel.Drv.Merge
